@@ -391,9 +391,7 @@ func init() {
 		}
 		ex := fr.ex()
 		useFree := len(st.free) > 0
-		if fr.i.conc != nil && fr.i.conc.on {
-			useFree = false // in-flight requests never share a pooled context
-		}
+
 		if useFree && ex.poolMode == 1 {
 			// fork: reuse the pooled object or build a fresh one
 			useFree = ex.chooseFree(2) == 0
@@ -402,13 +400,16 @@ func init() {
 			v := st.free[len(st.free)-1]
 			st.free = st.free[:len(st.free)-1]
 			ex.stats.Covers["pool: context reused"]++
+			fr.i.poolGet(v)
 			return v
 		}
 		newf := (*p).(structure)[fieldIndex(recvElem(fr), "New")]
 		if isNilRef(newf) {
 			return iface{}
 		}
-		return call(fr.i, fr, 0, newf, nil)
+		nv := call(fr.i, fr, 0, newf, nil)
+		fr.i.poolGet(nv)
+		return nv
 	}
 	intrinsics["(*sync.Pool).Put"] = func(fr *frame, args []value) value {
 		p := args[0].(*value)
@@ -418,6 +419,7 @@ func init() {
 			fr.i.pools[p] = st
 		}
 		st.free = append(st.free, args[1])
+		fr.i.poolPut(args[1])
 		return nil
 	}
 
